@@ -2,6 +2,7 @@ mod alloc;
 mod check;
 mod engine;
 mod fam_c06;
+mod fam_c09;
 mod fam_c12;
 mod fam_c13;
 mod fam_c14;
@@ -73,7 +74,7 @@ fn main() {
             let prop = args[2].as_str();
             let tier = args.get(3).map(|s| s.as_str()).unwrap_or("quick");
             let code = match prop {
-                "C01" | "C02" | "C03" | "C04" | "C05" | "C07" | "C08" | "C09" | "C10" | "C11" | "C16" => {
+                "C01" | "C02" | "C03" | "C04" | "C05" | "C07" | "C08" | "C10" | "C11" | "C16" => {
                     check::check::<repl_engine::Repl>(prop, tier, "exploration", serde_json::Value::Null)
                 }
                 _ => families::check(prop, tier),
@@ -105,6 +106,7 @@ fn main() {
                 ok &= check::determinism::<repl_engine::Repl>(p, n);
             }
             ok &= check::determinism::<fam_c06::C06Enum>("C06", 200);
+            ok &= check::determinism::<fam_c09::C09Enum>("C09", n);
             ok &= check::determinism::<fam_c12::C12c>("C12", n * 5);
             ok &= check::determinism::<fam_c13::C13>("C13", n);
             ok &= check::determinism::<fam_c14::C14>("C14", n);
